@@ -105,7 +105,7 @@ def c04_plans(s, ctx, sym, quick):
         P.append({"k": "in1", "xw": True})
     for pl in rng.sample(sym, 2 if quick else 10):
         c = S6.concretise(pl, bounds, n, rng)
-        c["rec"] = True
+        c["rec"] = not (s["entry"].endswith("_mt") and s["args"].get("timeout"))
         P.append(c)
     pts = set(rng.randrange(0, n + 1) for _ in range(4 if quick else 30))
     for b in bounds:
@@ -115,7 +115,8 @@ def c04_plans(s, ctx, sym, quick):
         P.append({"k": "two", "at": k, "xw": True})
     for _ in range(2 if quick else 5):
         at = (rng.choice(bounds) + rng.choice((-1, 0, 1))) if bounds and rng.random() < 0.6 else rng.randint(0, n)
-        P.append({"k": "starve", "at": max(0, min(n, at)), "n": 10 if mt else 6, "rec": True})
+        slow = mt and s["args"].get("timeout")      # "nothing yet" answers while workers are busy: time, not calls, bounds them
+        P.append({"k": "starve", "at": max(0, min(n, at)), "n": 60 if slow else 10 if mt else 6, "rec": not slow})
     return P
 
 
